@@ -55,6 +55,37 @@ type Input struct {
 	Group  int      `json:"group"`  // 0 = genesis group, 1..2 = harness groups whose members are the workload's miners
 	Castor int      `json:"castor"` // -1 = genesis proposer, k = workload miner k
 	Txs    []TxSpec `json:"txs"`
+	// SD: the input starts with a contract creation whose init code self-destructs and a transfer to
+	// the placeholder target "@created"; SDTarget is the created address (resolved by a probe execution)
+	SD       bool   `json:"sd,omitempty"`
+	SDTarget string `json:"sd_target,omitempty"`
+}
+
+// resolved replaces the placeholder transfer target by the created contract's address.
+func (in Input) resolved() Input {
+	if !in.SD {
+		return in
+	}
+	t := in.SDTarget
+	if t == "" {
+		t = addr(5)
+	}
+	out := in
+	out.Txs = nil
+	for _, s := range in.Txs {
+		if _, ok := s.Targets["@created"]; ok {
+			m := map[string]string{}
+			for k, v := range s.Targets {
+				if k == "@created" {
+					k = t
+				}
+				m[k] = v
+			}
+			s.Targets = m
+		}
+		out.Txs = append(out.Txs, s)
+	}
+	return out
 }
 
 func minerID(k int) []byte {
@@ -83,7 +114,7 @@ func (s TxSpec) build() *types.Transaction {
 		tx.Type, tx.Data = types.TransactionTypeMinerRefund, s.Data
 	case "miner-change":
 		tx.Type, tx.Data = types.TransactionTypeMinerChangeAccount, s.Data
-	case "contract-create", "contract-call":
+	case "contract-create", "contract-call", "contract-create-sd":
 		tx.Type, tx.Data = types.TransactionTypeContract, s.Data
 	}
 	tx.Hash = tx.GenHash()
@@ -141,6 +172,29 @@ func genInput(rng *rand.Rand, idx int, nRoots int) Input {
 	}
 	if rng.Intn(25) == 0 {
 		ntx = 70 + rng.Intn(131) // a large block (the node packs up to 200 transactions)
+	}
+	if rng.Intn(8) == 0 {
+		// a contract that self-destructs (in its constructor) and is paid again later in the same block:
+		// the end-of-block treatment of self-destructed accounts sees a non-zero balance
+		in.SD = true
+		cd, _ := json.Marshal(types.ContractData{AbiData: "0x33ff", TransferValue: []string{"0", "2"}[rng.Intn(2)], GasLimit: "30000000", GasPrice: "1"})
+		// transactions execute sorted by source (largest first): the creation comes from the largest
+		// rich account, the payments from smaller ones
+		in.Txs = append(in.Txs, TxSpec{Kind: "contract-create-sd", Source: rich[2], Nonce: nonce[rich[2]], Tag: fmt.Sprintf("i%d-sd", idx), Data: string(cd)})
+		nonce[rich[2]]++
+		for k := 0; k < 1+rng.Intn(2); k++ {
+			src := rich[1-k]
+			in.Txs = append(in.Txs, TxSpec{Kind: "transfer", Source: src, Nonce: nonce[src], Tag: fmt.Sprintf("i%d-sdpay%d", idx, k), Targets: map[string]string{"@created": []string{"5", "0.25", "1"}[rng.Intn(3)]}})
+			nonce[src]++
+		}
+	}
+	if rng.Intn(6) == 0 {
+		// one account named twice in the target map, in two spellings, with different amounts
+		src := rich[rng.Intn(len(rich))]
+		a := rich[(idx+1)%len(rich)] // an address with letters in its hex form
+		in.Txs = append(in.Txs, TxSpec{Kind: "transfer", Source: src, Nonce: nonce[src], Tag: fmt.Sprintf("i%d-twice", idx),
+			Targets: map[string]string{a: "3", "0x" + strings.ToUpper(a[2:]): "700000000", addr(4): "500000000"}})
+		nonce[src]++
 	}
 	for t := 0; t < ntx; t++ {
 		src := rich[rng.Intn(len(rich))]
@@ -243,6 +297,7 @@ func (o outcome) key() string {
 var harnessGroups [][]byte // ids of the groups added by the harness
 
 func execOnce(root common.Hash, in Input, castor, group []byte) (outcome, error) {
+	in = in.resolved()
 	if in.Group > 0 && in.Group <= len(harnessGroups) {
 		group = harnessGroups[in.Group-1]
 	}
@@ -279,6 +334,7 @@ func execOnce(root common.Hash, in Input, castor, group []byte) (outcome, error)
 }
 
 func classify(in Input, a, b outcome) (string, string) {
+	in = in.resolved()
 	for i := 0; i < len(a.Receipts) && i < len(b.Receipts); i++ {
 		if a.Receipts[i] != b.Receipts[i] {
 			// find the spec of the executed tx i
@@ -382,6 +438,42 @@ func childExec(r *mon.Run, args []string) {
 			batch = append(batch, in)
 		}
 		common.SetBlockHeight(batch[0].Height)
+		// inputs with a self-destructing creation: a probe execution tells the created address
+		for bi := range batch {
+			if !batch[bi].SD || batch[bi].SDTarget != "" {
+				continue
+			}
+			var o outcome
+			var err error
+			if r.Guard("C01:executor-probe", batch[bi], func() { o, err = execOnce(roots[batch[bi].Parent], batch[bi], castor, group) }) || err != nil {
+				continue
+			}
+			want := batch[bi].resolved().Txs[0]
+			for k, s := range batch[bi].resolved().Txs {
+				if s.Kind == "contract-create-sd" {
+					want = batch[bi].resolved().Txs[k]
+				}
+			}
+			h := want.build().Hash.Hex()
+			for k, e := range o.Executed {
+				if e == h && k < len(o.Receipts) {
+					var rc struct {
+						ContractAddress string `json:"contractAddress"`
+					}
+					js := o.Receipts[k]
+					if i := strings.Index(js, "|msg="); i >= 0 {
+						js = js[:i]
+					}
+					if json.Unmarshal([]byte(js), &rc) == nil && len(rc.ContractAddress) == 42 && rc.ContractAddress != "0x0000000000000000000000000000000000000000" {
+						batch[bi].SDTarget = rc.ContractAddress
+						r.Count("selfdestruct_then_paid_inputs", 1)
+						if os.Getenv("VERIF_DEBUG") != "" {
+							r.Note("DEBUG sd input %d created %s receipts %v", batch[bi].Idx, rc.ContractAddress, o.Receipts)
+						}
+					}
+				}
+			}
+		}
 		// sequential repetitions
 		for _, in := range batch {
 			b, _ := json.Marshal(in)
@@ -490,7 +582,7 @@ func childExec(r *mon.Run, args []string) {
 				h := &types.BlockHeader{Height: in.Height, Castor: c2, GroupId: g2, CurTime: time.Date(2024, 6, 1, 0, 0, int(in.Height), 0, time.UTC),
 					ProveValue: big.NewInt(7), TotalQN: in.Height, RequestIds: map[string]uint64{}}
 				var txs []*types.Transaction
-				for _, s := range in.Txs {
+				for _, s := range in.resolved().Txs {
 					txs = append(txs, s.build())
 				}
 				root, _, _, _ := core.VerifExecuteBlock(adb, &types.Block{Header: h, Transactions: txs}, "fullverify")
@@ -572,7 +664,7 @@ func childBuild(r *mon.Run, args []string) {
 		nb = 5
 	}
 	for b := 0; b < nb; b++ {
-		in := genInput(r.Rand("c01-block", sc, b), sc*10+b, 1)
+		in := genInput(r.Rand("c01-block", sc, b), sc*10+b, 1).resolved()
 		if history {
 			rich := env.RichAccounts
 			X, Y := rich[1+sc%2], rich[3]
